@@ -60,10 +60,10 @@ theorem count_argsort {α : Type} (l : List α) (d : α) (order : List Nat) (m :
 def residPairs (es : List Entry) (labels : List (Int × Int × Int)) : List (Nat × Nat) :=
   (labels.filter fun l => entryAt es l.1.toNat l.2.1.toNat = 0).map fun l => (l.1.toNat, l.2.1.toNat)
 
-theorem edgeLabelStep_struct {nRow nCol : Nat} {es posEs : List Entry} {colors : List PyStr} {st st' : LabelState}
+theorem edgeLabelStep_struct {nRow nCol : Nat} {es : List Entry} {colors : List PyStr} {st st' : LabelState}
     {lab : Int × Int × Int} {m : Nat} {pre : List (Int × Int × Int)}
     (h1 : st.data.length = m) (h2 : st.residual.map (fun r => (r.1, r.2.1)) = residPairs es pre)
-    (h : edgeLabelStep nRow nCol es posEs colors st lab = .ok st') :
+    (h : edgeLabelStep nRow nCol es colors st lab = .ok st') :
     st'.data.length = m ∧ st'.residual.map (fun r => (r.1, r.2.1)) = residPairs es (pre ++ [lab]) := by
   unfold edgeLabelStep at h
   simp only at h
@@ -96,7 +96,7 @@ theorem edgeLabelStep_struct {nRow nCol : Nat} {es posEs : List Entry} {colors :
 theorem getEdgeColors_struct {sort : List Int → List Nat} {nRow nCol : Nat} {es : List Entry}
     {labels : List (Int × Int × Int)} {edgeColor : PyStr}
     {lc : LabelColors} {ec : EdgeColors} (h : getEdgeColors sort nRow nCol es labels edgeColor lc = .ok ec) :
-    (∃ data : List Int, ec.order = sort data ∧ data.length = (es.filter fun e => e.2.2 > 0).length) ∧
+    (∃ data : List Int, ec.order = sort data ∧ data.length = es.length) ∧
     ec.residual.map (fun r => (r.1, r.2.1)) = residPairs es labels := by
   unfold getEdgeColors at h
   simp only at h
@@ -114,7 +114,7 @@ theorem getEdgeColors_struct {sort : List Int → List Nat} {nRow nCol : Nat} {e
     rename_i st hst
     simp only [Except.ok.injEq] at h
     subst h
-    have := foldlM_prefix (fun pre (st : LabelState) => st.data.length = (es.filter fun e => e.2.2 > 0).length ∧
+    have := foldlM_prefix (fun pre (st : LabelState) => st.data.length = es.length ∧
         st.residual.map (fun r => (r.1, r.2.1)) = residPairs es pre) _ _ [] _ st
       ⟨by simp, rfl⟩ (fun pre x acc acc' hacc hstep => edgeLabelStep_struct hacc.1 hacc.2 hstep) hst
     simp only [List.nil_append] at this
@@ -200,19 +200,6 @@ theorem residEdges_shape (ν : Nums) (directed : Bool) (pos : List (Rat × Rat))
   rw [this, List.filter_map, List.length_map]
   rfl
 
-/-- all stored weights are non-negative -/
-def NonNeg (es : List Entry) : Prop := ∀ e ∈ es, e.2.2 ≥ 0
-
-theorem pos_filter_of_nonneg (es : List Entry) (h : NonNeg es) :
-    ((es.filter fun e => e.2.2 ≠ 0).filter fun e => e.2.2 > 0) = es.filter fun e => e.2.2 ≠ 0 := by
-  apply List.filter_eq_self.mpr
-  intro e he
-  have h1 := (List.mem_filter.mp he)
-  have h2 := h e h1.1
-  have h3 : e.2.2 ≠ 0 := by simpa using h1.2
-  simp only [gt_iff_lt, decide_eq_true_eq]
-  exact lt_of_le_of_ne h2 (Ne.symm h3)
-
 /-- the number of edge paths `visualize_graph` draws for the final positions `pos` -/
 def graphEdgeCount (a : GraphArgs) (pos : List (Rat × Rat)) : Nat :=
   if a.displayEdges then
@@ -221,7 +208,7 @@ def graphEdgeCount (a : GraphArgs) (pos : List (Rat × Rat)) : Nat :=
   else 0
 
 theorem graphEdgeParts_shape {ν : Nums} {a : GraphArgs} {pos : List (Rat × Rat)} {ps : List PyStr × List Piece}
-    (hsort : SortOk ν) (hnn : NonNeg a.entries) (h : graphEdgeParts ν a pos = .ok ps) :
+    (hsort : SortOk ν) (h : graphEdgeParts ν a pos = .ok ps) :
     Shape ps.2 ⟨0, 0, graphEdgeCount a pos, []⟩ := by
   unfold graphEdgeParts at h
   unfold graphEdgeCount
@@ -239,14 +226,6 @@ theorem graphEdgeParts_shape {ν : Nums} {a : GraphArgs} {pos : List (Rat × Rat
     simp only [Except.ok.injEq] at h
     subst h
     obtain ⟨⟨data, hord, hdata⟩, hres⟩ := getEdgeColors_struct hec
-    have hpos : ((graphEs a).filter fun e => e.2.2 > 0) = graphEs a := by
-      unfold graphEs
-      have hnn' : NonNeg (if a.hasAdj = true then a.entries else []) := by
-        split
-        · exact hnn
-        · intro e he; simp at he
-      exact pos_filter_of_nonneg _ hnn'
-    rw [hpos] at hdata
     have h1 := storedEdges_shape hstored
     rw [hord, count_argsort (graphEs a) (0, 0, 0) _ _ (hsort data) hdata
       (fun e => drawn (graphDirected a) pos e.1 e.2.1)] at h1
